@@ -241,7 +241,8 @@ def check_property(pid, tier, seed):
                     cbmc_unreachable=u.get("cbmc_unreachable"), covers=u.get("covers"),
                     bounded=u.get("bounded") or None, reason=u.get("reason"),
                     obligations=[o["id"] for o in u["obligations"]],
-                    extraction=u.get("extraction"), note=u.get("note")) for u in units],
+                    extraction=u.get("extraction"), note=u.get("note"), assumed_items=u.get("assumed_items"),
+                    bounded_fallback=u.get("bounded_fallback")) for u in units],
         functions_under_contract=sorted(set(f for u in units for f in u.get("functions", []))),
         frame_scans=scan_results,
         samples=samples[:40] or ["none"],
